@@ -585,6 +585,14 @@ func (c *bufioConn) Read(b []byte) (int, error) {
 	return c.reader.Read(b)
 }
 
+// CloseWrite passes a half-close on to the wrapped connection.
+func (c *bufioConn) CloseWrite() error {
+	if wc, ok := c.Conn.(WriteCloser); ok {
+		return wc.CloseWrite()
+	}
+	return nil
+}
+
 func (c *bufioConn) Write(b []byte) (int, error) {
 	return c.Conn.Write(b)
 }
